@@ -200,6 +200,29 @@ func (w *statsWorld) view(s *info.Stats) term.T {
 	return term.C("mkV", floats(ps), floats(ds), bools(ws), bools(fs), term.L(counts...), term.F(s.ATK()), term.F(s.MaxHP()))
 }
 
+// scribble: the holder of a snapshot also owns the per-modifier change sets it lists (Stats.Modifiers()):
+// writing into their maps is "changing the snapshot" and must reach neither the unit nor a later snapshot
+// (the snapshot's own totals are stored separately, so nothing the harness reads from it changes either)
+func (w *statsWorld) scribble(s *info.Stats, x float64) {
+	for _, cs := range s.Modifiers() {
+		for _, p := range w.pk {
+			if cs.Props != nil {
+				cs.Props[p] += x + 1
+			}
+		}
+		for _, f := range w.fk {
+			if cs.DebuffRES != nil {
+				cs.DebuffRES[f] += x + 1
+			}
+		}
+		for _, d := range w.dk {
+			if cs.Weakness != nil {
+				cs.Weakness[d] = !cs.Weakness[d]
+			}
+		}
+	}
+}
+
 func (w *statsWorld) tags(u key.TargetID) term.T {
 	seen := map[key.Modifier]int{}
 	cache := map[key.Modifier][]info.Modifier{}
@@ -325,11 +348,13 @@ func (w *statsWorld) doOp(o term.T) {
 		k := int(term.Int(a[0]))
 		if k >= 0 && k < len(w.snaps) {
 			w.snaps[k].AddProperty("verif", prop.Property(term.Int(a[1])), term.Float(a[2]))
+			w.scribble(w.snaps[k], term.Float(a[2]))
 		}
 	case "PSnapAddD":
 		k := int(term.Int(a[0]))
 		if k >= 0 && k < len(w.snaps) {
 			w.snaps[k].AddDebuffRES("verif", model.BehaviorFlag(term.Int(a[1])), term.Float(a[2]))
+			w.scribble(w.snaps[k], term.Float(a[2]))
 		}
 	case "PReadAll":
 	default:
